@@ -1409,9 +1409,22 @@ fn gen_client(repo: &Path, g: &mut Gen) -> R<()> {
         match ch { '(' => depth += 1, ')' => { depth -= 1; if depth == 0 { end = at + i; break; } } _ => {} }
     }
     let bounded = &rt[at..end];
-    let covers = bounded.contains(". send (");
+    // … and is the shared write half's lock taken inside that future too (waiting for it is part of handing the request over:
+    // a clone whose send is stuck holds it), not in a statement before the timeout starts?
+    let lock_outside = rt[..at].split(';').any(|st| st.contains("write_half") && (st.contains(". lock ()") || st.contains(". lock_owned ()")) && st.contains(". await"));
+    let covers = bounded.contains(". send (") && !lock_outside;
     if !covers && !rt[..at].contains(". send (") { return shape(rq_rel, "request(): no `.send(…)` before or inside the timeout"); }
     let _ = writeln!(s, "/-- {rq_rel}: does the per-request timeout also bound handing the request to the transport (`send(frame)`)? -/\ndef requestTimeoutCoversSend : Bool := {covers}");
-    g.emit("Client", &[sub_rel, rq_rel], &s);
+    // the request id counter shared by a requestor and its clones: how many bits before it wraps
+    let id_rel = "protocol/src/request_id.rs";
+    let id = Src::load(repo, id_rel)?;
+    let idt = { let a = &id.ast; quote::quote!(#a).to_string() };
+    let bits = ["AtomicU64", "AtomicU32", "AtomicU16", "AtomicU8", "AtomicUsize"].iter().find(|t| idt.contains(&format!("struct RequestId ({t})")) || idt.contains(&format!(": {t}")))
+        .map(|t| match *t { "AtomicU64" | "AtomicUsize" => 64, "AtomicU32" => 32, "AtomicU16" => 16, _ => 8 })
+        .ok_or_else(|| Shape(format!("{id_rel}: RequestId does not wrap an atomic unsigned counter")))?;
+    // (`next_id` returns u32: a wider counter is truncated to 32 bits by the header's type)
+    let bits = std::cmp::min(bits, 32);
+    let _ = writeln!(s, "/-- {id_rel}: width of the request id counter (ids repeat after 2^bits calls on one requestor and its clones) -/\ndef requestIdBits : Nat := {bits}");
+    g.emit("Client", &[sub_rel, rq_rel, id_rel], &s);
     Ok(())
 }
